@@ -46,6 +46,15 @@ var walkOmissions = map[string]string{
 	"Package.GoFiles":  "go/ast trees of the package's Go files: foreign node kinds (go/ast.*), not part of the XGo tree that Walk's switch covers",
 }
 
+// walkGuards lists the only non-nil-test conditions under which a child may be walked (field -> normalised condition).
+var walkGuards = map[string]string{
+	"File.Name":     "!n.NoPkgDecl", // the flag is DEFINED as "the package name is synthesized, not in the source"
+	"FuncDecl.Doc":  "!n.Shadow",    // a shadow entry shares the header of the function it shadows
+	"FuncDecl.Recv": "!n.Shadow",
+	"FuncDecl.Name": "!n.Shadow",
+	"FuncDecl.Type": "!n.Shadow",
+}
+
 type walkTarget struct {
 	path  string // n.F, n.F.G, n.F.(*T).G
 	kind  string // node | list | anylist
@@ -69,6 +78,7 @@ type walkAnalysis struct {
 	fieldDoc  map[*types.Var]string
 	guards    map[string]bool
 	guardedAt map[token.Pos]map[string]bool
+	condStack []string
 }
 
 func runC18(c *core.Check) {
@@ -268,9 +278,10 @@ func (w *walkAnalysis) anyTargets(owner string, f *types.Var, p, l string, depth
 }
 
 type walkedUse struct {
-	path string
-	pos  token.Pos
-	call *ast.CallExpr
+	path  string
+	pos   token.Pos
+	call  *ast.CallExpr
+	conds []string // enclosing non-nil-test conditions, normalised
 }
 
 func (w *walkAnalysis) checkCase(u nodeType, cc *ast.CaseClause, multi bool) {
@@ -315,9 +326,20 @@ func (w *walkAnalysis) checkCase(u nodeType, cc *ast.CaseClause, multi bool) {
 			g := w.nilGuarded(x.Cond)
 			guardStack = append(guardStack, g...)
 			w.scanExpr(x.Cond, &uses, guardStack)
+			cond := ""
+			if len(g) == 0 && !w.isCommaOk(x) {
+				cond = w.normCond(x.Cond)
+				w.condStack = append(w.condStack, cond)
+			}
 			visit(x.Body)
 			guardStack = guardStack[:len(guardStack)-len(g)]
+			if cond != "" {
+				w.condStack[len(w.condStack)-1] = "!(" + cond + ")"
+			}
 			visit(x.Else)
+			if cond != "" {
+				w.condStack = w.condStack[:len(w.condStack)-1]
+			}
 		case *ast.AssignStmt:
 			for _, r := range x.Rhs {
 				w.scanExpr(r, &uses, guardStack)
@@ -406,6 +428,13 @@ func (w *walkAnalysis) checkCase(u nodeType, cc *ast.CaseClause, multi bool) {
 			w.c.Bad("walk-field", t.label, us[1].pos, "child field is walked more than once in its case")
 		default:
 			w.c.Ok("walk-field", t.label, us[0].pos, "")
+			for _, cond := range us[0].conds {
+				if walkGuards[t.label] == cond {
+					w.c.Ok("walk-guard", t.label, us[0].pos, "reviewed guard "+cond)
+				} else {
+					w.c.Bad("walk-guard", t.label, us[0].pos, "this child is walked only under the condition `"+cond+"`, which is neither a nil test of the child nor a reviewed guard: trees for which the condition is false while the child is present lose that child in Walk/Inspect (and vice versa)")
+				}
+			}
 			order = append(order, struct {
 				idx int
 				pos token.Pos
@@ -518,7 +547,7 @@ func (w *walkAnalysis) scanExpr(e ast.Expr, uses *[]walkedUse, guardStack []stri
 		callee := calleeObj(w.info, call)
 		if (callee == w.walkObj || callee == w.listObj) && callee != nil && len(call.Args) == 2 {
 			if p := w.path(call.Args[1]); p != "" {
-				*uses = append(*uses, walkedUse{p, call.Pos(), call})
+				*uses = append(*uses, walkedUse{p, call.Pos(), call, append([]string(nil), w.condStack...)})
 				if w.guardedAt == nil {
 					w.guardedAt = map[token.Pos]map[string]bool{}
 				}
@@ -607,4 +636,28 @@ func (w *walkAnalysis) checkPrePost(fd *ast.FuncDecl, ts *ast.TypeSwitchStmt, vi
 	} else {
 		c.Ok("walk-post", "Visit(nil)", fd.End(), "v.Visit(nil) post-dominates every case of the switch")
 	}
+}
+
+// isCommaOk: `if e, ok := x.(T); ok` — the condition is the assertion's own ok flag.
+func (w *walkAnalysis) isCommaOk(x *ast.IfStmt) bool {
+	as, ok := x.Init.(*ast.AssignStmt)
+	if !ok || len(as.Lhs) != 2 || len(as.Rhs) != 1 {
+		return false
+	}
+	if _, ok := ast.Unparen(as.Rhs[0]).(*ast.TypeAssertExpr); !ok {
+		return false
+	}
+	id, ok := ast.Unparen(x.Cond).(*ast.Ident)
+	return ok && w.info.Uses[id] != nil && w.info.Uses[id] == w.info.Defs[as.Lhs[1].(*ast.Ident)]
+}
+
+// normCond renders a condition with the case variable called n.
+func (w *walkAnalysis) normCond(e ast.Expr) string {
+	s := types.ExprString(e)
+	for obj, p := range w.alias {
+		if p == "n" && obj != nil {
+			s = replaceIdent(s, obj.Name(), "n")
+		}
+	}
+	return strings.ReplaceAll(s, " ", "")
 }
